@@ -104,6 +104,7 @@ mod verif_kani_resp_codec {
         if let Some(Ok((_, n))) = &full {
             assert!(0 < *n && *n <= N);
         }
+        kani::cover!(matches!(&full, Some(Ok(_)))); // some input of this length is a complete frame
         let mut k = 1;
         while k < N {
             let part = parse_scalar(&buf[..k]);
@@ -127,7 +128,7 @@ mod verif_kani_resp_codec {
     }
 
     // @harness: h_codec_scalars_n4
-    // @bound: all byte strings of length 1..=4 over the 18-symbol alphabet; scalar frame types (+ - : $) via the real parse_* fns; unwind 6
+    // @bound: all byte strings of length 1..=4 over the 18-symbol alphabet; scalar frame types (+ - : $) via the real parse_* fns; unwind 6; measured CBMC time ~87 s (machine under load)
     // @tier: quick
     // @complete: false
     // @props: C15
@@ -143,7 +144,7 @@ mod verif_kani_resp_codec {
         check_scalars::<4>();
     }
     // @harness: h_codec_scalars_n5
-    // @bound: all byte strings of length 1..=5 over the 18-symbol alphabet; scalar frame types (+ - : $) via the real parse_* fns; unwind 7
+    // @bound: all byte strings of length 1..=5 over the 18-symbol alphabet; scalar frame types (+ - : $) via the real parse_* fns; unwind 7; measured CBMC time ~145 s (machine under load)
     // @tier: thorough
     // @complete: false
     // @props: C15
@@ -159,7 +160,7 @@ mod verif_kani_resp_codec {
         check_scalars::<5>();
     }
     // @harness: h_codec_scalars_n7
-    // @bound: all byte strings of length 1..=7 over the 18-symbol alphabet; scalar frame types (+ - : $) via the real parse_* fns; unwind 9
+    // @bound: all byte strings of length 1..=7 over the 18-symbol alphabet; scalar frame types (+ - : $) via the real parse_* fns; unwind 9; measured CBMC time ~405 s (machine under load)
     // @tier: thorough
     // @complete: false
     // @props: C15
@@ -173,5 +174,21 @@ mod verif_kani_resp_codec {
     #[kani::stub(core::fmt::Formatter::pad, fmt_pad_stub)]
     fn h_codec_scalars_n7() {
         check_scalars::<7>();
+    }
+    // @harness: h_codec_scalars_n8
+    // @bound: all byte strings of length 1..=8 over the 18-symbol alphabet; scalar frame types (+ - : $) via the real parse_* fns; unwind 10; measured CBMC time ~685 s (machine under load)
+    // @tier: thorough
+    // @complete: false
+    // @props: C15
+    #[kani::proof]
+    #[kani::unwind(10)]
+    #[kani::stub(dep_memchr, memchr_stub)]
+    #[kani::stub(bytes::Bytes::copy_from_slice, bytes_copy_stub)]
+    #[kani::stub(core::str::from_utf8, from_utf8_ascii_stub)]
+    #[kani::stub(alloc::fmt::format, fmt_format_stub)]
+    #[kani::stub(core::fmt::write, fmt_write_stub)]
+    #[kani::stub(core::fmt::Formatter::pad, fmt_pad_stub)]
+    fn h_codec_scalars_n8() {
+        check_scalars::<8>();
     }
 }
